@@ -226,6 +226,19 @@ proof fn lemma_run_prefix(m: AdjacencyMatrix, states: Seq<ArcsIterator>, outs: S
     }
 }
 
+impl AdjacencyMatrix {
+    // `Arcs::arcs` itself: the iterator it returns is the initial state of a run (every cell of the matrix still pending),
+    // so lemma_arcs_c01 below applies to the runs started by `arcs()`.
+    /*@fn impl=AdjacencyMatrix trait=Arcs name=arcs rettype="ArcsIterator<'_>"
+    requires
+        self.wf(),
+    ensures
+        r.inv(),
+        r.matrix == self,
+        forall|i: int| #[trigger] r.pending(i) == self.cell(i),
+    @*/
+}
+
 /// C01 for AdjacencyMatrix::arcs(): any complete run lists every arc exactly once in ascending lexicographic order
 proof fn lemma_arcs_c01(m: AdjacencyMatrix, states: Seq<ArcsIterator>, outs: Seq<(usize, usize)>)
     requires m.wf(), arcs_run(m, states, outs),
